@@ -12,6 +12,7 @@ import MocVerif.Lemmas.CellView
 import MocVerif.Model.Params
 import MocVerif.Lemmas.CellRanges
 
+import MocVerif.Lemmas.CellMax
 namespace Moc.C05
 
 /-- NUNIQ: `from_uniq_hpx ∘ uniq_hpx = id` for every depth (not only "depths < 8") and index. -/
@@ -91,6 +92,133 @@ theorem cells_cover (q : Qty) (hq : q.dim = 1 ∨ q.dim = 2) (w d : Nat) (hd : d
 theorem cells_normal_form (q : Qty) (w d : Nat) (l1 l2 : List Rng) (h1 : Valid q w d l1) (h2 : Valid q w d l2)
     (hs : ∀ x, mem x l1 ↔ mem x l2) : cellsOf q w d l1 = cellsOf q w d l2 := by
   rw [Canon.ext h1.1 h2.1 hs]
+
+/-- The parent (one level up) of a cell of depth ≥ 1. -/
+def parentCell (q : Qty) (c : Cell) : Cell := (c.1 - 1, c.2 >>> q.dim)
+
+theorem canon_gap : ∀ (l : List Rng) (lo : Nat), CanonFrom lo l → ∀ r ∈ l,
+    lo ≤ r.1 ∧ r.1 < r.2 ∧ ¬ mem r.2 l ∧ (0 < r.1 → ¬ mem (r.1 - 1) l) := by
+  intro l
+  induction l with
+  | nil => intro _ _ r hr; cases hr
+  | cons r0 t ih =>
+    intro lo h r hr
+    obtain ⟨h1, h2, h3⟩ := h
+    cases hr with
+    | head =>
+      refine ⟨h1, h2, ?_, ?_⟩
+      · intro hm
+        simp only [mem] at hm
+        rcases hm with hm | hm
+        · omega
+        · have := h3.lb hm; omega
+      · intro hp hm
+        simp only [mem] at hm
+        rcases hm with hm | hm
+        · omega
+        · have := h3.lb hm; omega
+    | tail _ hm =>
+      obtain ⟨i1, i2, i3, i4⟩ := ih _ h3 r hm
+      refine ⟨by omega, i2, ?_, ?_⟩
+      · intro hx
+        simp only [mem] at hx
+        rcases hx with hx | hx
+        · omega
+        · exact i3 hx
+      · intro hp hx
+        simp only [mem] at hx
+        rcases hx with hx | hx
+        · omega
+        · exact i4 hp hx
+
+/-- **The cell view is the NORMAL form: every cell is maximal.**  For every valid MOC `M` (any quantity
+    of dimension 1 or 2 whose deepest level leaves room for one more level in the index type — true of
+    the three quantities on u16 / u32 / u64), no cell of the cell view of depth ≥ 1 has its parent
+    inside `M`: some index of the parent cell is not covered.  Together with `cells_cover` (the cells
+    cover exactly `M`) and the fact that they tile each range without overlap, this characterises the
+    cell list independently of the algorithm that computes it: it is the set of the largest aligned
+    cells contained in `M` — four siblings never stand for their parent. -/
+theorem cells_maximal (q : Qty) (hq : q.dim = 1 ∨ q.dim = 2) (w d : Nat) (hd : d ≤ q.maxDepth w)
+    (hw : q.dim * q.maxDepth w + q.dim ≤ w) (l : List Rng) (hv : Valid q w d l) :
+    ∀ c ∈ cellsOf q w d l, 0 < c.1 →
+      ∃ x, (rangeOfCell q w (parentCell q c)).1 ≤ x ∧ x < (rangeOfCell q w (parentCell q c)).2 ∧ ¬ mem x l := by
+  intro c hc hpos
+  have hdim : 0 < q.dim := by rcases hq with h | h <;> omega
+  have hal := aligned_of_valid q w d l hv
+  -- the range the cell comes from
+  unfold cellsOf at hc
+  obtain ⟨r, hr, hcr⟩ := List.mem_flatMap.1 hc
+  obtain ⟨g1, g2, g3, g4⟩ := canon_gap l 0 hv.1 r hr
+  have har := hal r hr
+  have hgt := cellsOfRange_gtiles q hq w d hd hw (r.2 - r.1) r.1 r.2 (Nat.le_refl _) (Nat.le_of_lt g2) har.1 har.2
+  have hmem : tileOf q w c ∈ (cellsOfRange q w d (r.2 - r.1) r.1 r.2).map (tileOf q w) := List.mem_map.2 ⟨c, hcr, rfl⟩
+  -- the cell lies inside its range
+  have hts := cellsOfRange_tiles q hq w d hd (r.2 - r.1) r.1 r.2 (Nat.le_refl _) (Nat.le_of_lt g2) har.1 har.2
+  -- geometry of the parent block
+  have hc1 : c.1 ≤ q.maxDepth w := by
+    have := tiles_depth q w d _ _ _ hts c hcr; omega
+  let j := q.maxDepth w - c.1
+  have hsh : q.shiftFromMax w c.1 = q.dim * j := rfl
+  have hshp : q.shiftFromMax w (c.1 - 1) = q.dim * (j + 1) := by
+    unfold Qty.shiftFromMax
+    have : q.maxDepth w - (c.1 - 1) = j + 1 := by omega
+    rw [this]
+  have hP1 : (rangeOfCell q w (parentCell q c)).1 = (c.2 >>> q.dim) <<< (q.dim * (j + 1)) := by
+    simp only [rangeOfCell, parentCell, hshp]
+  have hP2 : (rangeOfCell q w (parentCell q c)).2 = (c.2 >>> q.dim) <<< (q.dim * (j + 1)) + 2 ^ (q.dim * (j + 1)) := by
+    simp only [rangeOfCell, parentCell, hshp, Nat.shiftLeft_eq, Nat.add_mul, Nat.one_mul]
+  rw [hP1, hP2]
+  -- by contradiction: the whole parent block is covered
+  apply Classical.byContradiction
+  intro hall
+  have hcov : ∀ x, (c.2 >>> q.dim) <<< (q.dim * (j + 1)) ≤ x → x < (c.2 >>> q.dim) <<< (q.dim * (j + 1)) + 2 ^ (q.dim * (j + 1)) → mem x l := by
+    intro x h1 h2
+    apply Classical.byContradiction
+    intro hx
+    exact hall ⟨x, h1, h2, hx⟩
+  -- start of the cell between the bounds of the parent block
+  have hstart : c.2 <<< q.shiftFromMax w c.1 = c.2 * 2 ^ (q.dim * j) := by rw [hsh, Nat.shiftLeft_eq]
+  have hpstart : (c.2 >>> q.dim) <<< (q.dim * (j + 1)) = (c.2 / 2 ^ q.dim) * 2 ^ q.dim * 2 ^ (q.dim * j) := by
+    rw [Nat.shiftLeft_eq, Nat.shiftRight_eq_div_pow, Nat.mul_add, Nat.mul_one, Nat.pow_add, Nat.mul_assoc,
+      Nat.mul_comm (2 ^ (q.dim * j))]
+  have hpsize : 2 ^ (q.dim * (j + 1)) = 2 ^ q.dim * 2 ^ (q.dim * j) := by
+    rw [Nat.mul_add, Nat.mul_one, Nat.pow_add, Nat.mul_comm]
+  have hdm := Nat.div_add_mod c.2 (2 ^ q.dim)
+  have hml := Nat.mod_lt c.2 (Nat.two_pow_pos q.dim)
+  have hpj := Nat.two_pow_pos (q.dim * j)
+  have hle : (c.2 >>> q.dim) <<< (q.dim * (j + 1)) ≤ c.2 <<< q.shiftFromMax w c.1 := by
+    rw [hstart, hpstart]
+    apply Nat.mul_le_mul_right
+    rw [Nat.mul_comm]; omega
+  have hlt : c.2 <<< q.shiftFromMax w c.1 < (c.2 >>> q.dim) <<< (q.dim * (j + 1)) + 2 ^ (q.dim * (j + 1)) := by
+    rw [hstart, hpstart, hpsize, ← Nat.add_mul]
+    apply Nat.mul_lt_mul_of_pos_right _ hpj
+    rw [Nat.mul_comm]; omega
+  -- the parent block lies inside the range (gaps on both sides of a canonical range)
+  have hs1 : r.1 ≤ c.2 <<< q.shiftFromMax w c.1 := gtiles_start_ge hgt (tileOf q w c) hmem
+  have hs2 : c.2 <<< q.shiftFromMax w c.1 + 2 ^ (q.dim * (q.maxDepth w - c.1)) ≤ r.2 := gtiles_end_le hgt (tileOf q w c) hmem
+  have hpp := Nat.two_pow_pos (q.dim * (q.maxDepth w - c.1))
+  have hlo : r.1 ≤ (c.2 >>> q.dim) <<< (q.dim * (j + 1)) := by
+    apply Classical.byContradiction
+    intro hn
+    have hr0 : 0 < r.1 := by omega
+    exact g4 hr0 (hcov (r.1 - 1) (by omega) (by omega))
+  have hhi : (c.2 >>> q.dim) <<< (q.dim * (j + 1)) + 2 ^ (q.dim * (j + 1)) ≤ r.2 := by
+    apply Classical.byContradiction
+    intro hn
+    exact g3 (hcov r.2 (by omega) (by omega))
+  have hdvd : 2 ^ (q.dim * (j + 1)) ∣ (c.2 >>> q.dim) <<< (q.dim * (j + 1)) := by
+    rw [Nat.shiftLeft_eq]; exact Nat.dvd_mul_left _ _
+  exact gtiles_maximal q.dim (q.maxDepth w) hdim _ r.1 r.2 hgt (tileOf q w c) hmem (by simp only [tileOf]; omega)
+    _ hdvd hle hlt hlo hhi
+
+/-- The room hypothesis of `cells_maximal` holds for the three quantities on the three index widths. -/
+theorem maximal_room :
+    (∀ q ∈ [Params.hpx, Params.time, Params.freq], ∀ w ∈ [16, 32, 64], q.dim * q.maxDepth w + q.dim ≤ w) := by decide
+
+/-- Non-vacuity and the point of the theorem on a concrete S-MOC: base cell 3 WHOLE is the single cell `0/3`,
+    not its four children. -/
+example : cellsOf Params.hpx 64 1 [(3 * 2 ^ 58, 4 * 2 ^ 58)] = [(0, 3)] := by decide
 
 theorem cells_injective (q : Qty) (hq : q.dim = 1 ∨ q.dim = 2) (w d : Nat) (hd : d ≤ q.maxDepth w)
     (l1 l2 : List Rng) (h1 : Valid q w d l1) (h2 : Valid q w d l2)
